@@ -4,8 +4,8 @@ import (
 	"fmt"
 	"go/token"
 	"go/types"
-	"sort"
 	"regexp"
+	"sort"
 	"strings"
 
 	"golang.org/x/tools/go/ssa"
